@@ -446,16 +446,33 @@ def run_scoped_state(rec, S, fields=("try_attributes", "loop_attributes", "class
             last = ws[-1]
             saved = saves.get(fld, set())
             ok = bool(saved) and last[3] == "assign" and last[2].get("e") == "path" and last[2].get("p") in saved
-            # every other write must be the save itself
-            ok = ok and all(w[3].startswith("save-") for w in ws[:-1])
+            # every other write is the save itself, or - after a save by take() - the installation of the new record
+            seen_save = False
+            for w in ws[:-1]:
+                if w[3].startswith("save-"):
+                    seen_save = True
+                elif w[3] == "assign" and seen_save and not (w[2].get("e") == "path" and w[2].get("p") in saved) and synq.src(w[2]).strip() != "None":
+                    pass
+                else:
+                    ok = False
             rec.inst(R, "%s: %s saved in %s, restored last" % (name, fld, sorted(saved)), ok=ok, loc=L(COMPILER, last[0]))
             if not ok:
                 rec.finding(R, "F2.scope/%s/%s" % (name, fld), "Compiler::%s writes self.%s but does not restore the enclosing value it displaced (writes: %s): after this construct the compiler no longer knows its enclosing %s, so e.g. an early return/break/continue inside an outer try emits no PopHandler and a stale handler stays on the fiber" % (name, fld, ", ".join("%s@%d" % (w[3], w[0]) for w in ws), fld.split("_")[0]), loc=L(COMPILER, last[0]), fn=name)
             if name == "try_" and ok:
-                calls = [x for x in walk_expr(body) if isinstance(x, dict) and x.get("e") == "mcall" and synq.src(x.get("recv")) == "self" and x.get("m") in ("catch", "scope")]
-                catch_lines = [c["line"] for c in calls if c["m"] == "catch"]
-                scope_lines = [c["line"] for c in calls if c["m"] == "scope"]
-                ok2 = bool(catch_lines) and bool(scope_lines) and min(scope_lines) < last[0] < min(catch_lines) and ws[0][0] < min(scope_lines)
+                # positions in source order of the (normalised) body: helpers and the closures handed to them are substituted
+                # where they run, so traversal order is execution order for straight-line code
+                order = {id(x): i for i, x in enumerate(walk_expr(body)) if isinstance(x, dict)}
+                calls = [x for x in walk_expr(body) if isinstance(x, dict) and x.get("e") == "mcall" and synq.src(x.get("recv")) in ("self", "self_") and x.get("m") in ("catch", "scope")]
+                catch_pos = [order[id(c)] for c in calls if c["m"] == "catch"]
+                scope_pos = [order[id(c)] for c in calls if c["m"] == "scope"]
+                wpos = {}
+                for x in walk_expr(body):
+                    if isinstance(x, dict):
+                        for w in ws:
+                            if w[2] is x or (x.get("e") == "assign" and x.get("b") is w[2]):
+                                wpos[id(w[2])] = order[id(x)]
+                first_p, last_p = wpos.get(id(ws[0][2])), wpos.get(id(last[2]))
+                ok2 = bool(catch_pos) and bool(scope_pos) and first_p is not None and last_p is not None and min(scope_pos) < last_p < min(catch_pos) and first_p < min(scope_pos)
                 rec.inst(R, "try_: install < try block < restore < catch clauses", ok=ok2, loc=L(COMPILER, last[0]))
                 if not ok2:
                     rec.finding(R, "F2.scope/try_/order", "Compiler::try_ does not keep its TryAttributes installed exactly while the protected block is compiled (install, block, restore, then the catch clauses): exits from the wrong region pop (or fail to pop) this try's handler", loc=L(COMPILER, last[0]), fn="try_")
